@@ -237,7 +237,8 @@ func (s *muxerStream) populateMultivariantPlaylist(
 
 	uri := mediaPlaylistPath(s.id)
 	if rawQuery != "" {
-		uri += "?" + rawQuery
+		// a rendition URI is a quoted attribute value, that cannot contain a double quote
+		uri += "?" + strings.ReplaceAll(rawQuery, "\"", "%22")
 	}
 
 	if s.isLeading {
